@@ -606,3 +606,34 @@ Theorem decoded_facts_are_reports H SH (h_dec : SH -> H) h_type (s : sop SH) :
   op_facts H h_type (op_deserialize H SH h_dec s) =
   enc_reports (c06_reports H h_type (to_c06 (op_deserialize H SH h_dec s))).
 Proof. apply facts_are_reports, deser_bridge_ok. Qed.
+
+(* ================= ANY nesting depth of function-valued constants, no hypothesis =================
+   The payload hypothesis of [codec_preserves_spec] is the round trip of the embedded HUGR; proofs/ComposeDepthP.v
+   (C02 o C05) proves it for the tower HT md n / ST md n of HUGRs and documents embedded to depth n
+   ([tower_rt], by induction on n; okT = that theorem's own premises on the embedded HUGRs, as a boolean). *)
+From HV Require model.SerialHugr model.ComposeOps model.ComposeDepth proofs.ComposeDepthP proofs.ComposeExamplesP.
+Definition codec_preserves_spec_any_depth md md_nil md_is_nil
+           (nil_ok : md_is_nil md_nil = true) (nil_unique : forall m, md_is_nil m = true -> m = md_nil) (n : nat) :=
+  codec_preserves_spec (ComposeDepth.HT md n) (ComposeDepth.ST md n) (ComposeDepth.encT md md_is_nil n)
+    (ComposeDepth.decT md md_nil n) (ComposeDepth.nfT md md_nil md_is_nil n) (ComposeDepth.typeT md n)
+    (ComposeDepth.okT md md_is_nil n) (ComposeDepthP.tower_rt md md_nil md_is_nil nil_ok nil_unique n).
+(* metadata as the harness interns it (N, 0 = {}): closed *)
+Definition codec_preserves_spec_any_depth_closed (n : nat) :=
+  codec_preserves_spec_any_depth N 0%N ComposeExamplesP.is0 ComposeExamplesP.is0_nil ComposeExamplesP.is0_unique n.
+
+(* non-vacuity at depth 1: a Const holding the function value whose body is the 5-node DFG bool -> option(bool) of
+   proofs/ComposeExamplesP.v (itself containing a constant): the constant port carries the function type of the
+   body's root, before and after the round trip of the operation (which round-trips the embedded document) *)
+Definition exb_fconst : CodecOps.op (ComposeDepth.HT N 1) := CodecOps.OConst (VFunction ComposeExamplesP.body1).
+Example ex_bridge_function_constant :
+  OpOK (ComposeDepth.HT N 1) (ComposeDepth.okT N ComposeExamplesP.is0 1) exb_fconst /\
+  spec_port_kind (ct (ComposeDepth.HT N 1) (ComposeDepth.typeT N 1)) (to_c06 exb_fconst) Out 0 =
+    Port (ConstKind ComposeExamplesP.tfn) /\
+  spec_num_out (to_c06 exb_fconst) = Some 1%nat /\
+  port_kind (vt (ComposeDepth.HT N 1) (ComposeDepth.typeT N 1))
+    (to_c06 (op_deserialize (ComposeDepth.HT N 1) (ComposeDepth.ST N 1) (ComposeDepth.decT N 0%N 1)
+               (op_to_serial (ComposeDepth.HT N 1) (ComposeDepth.ST N 1) (ComposeDepth.encT N ComposeExamplesP.is0 1) exb_fconst 0%N)))
+    Out 0 = Ret (ConstKind ComposeExamplesP.tfn).
+Proof.
+  split; [split; [vm_compute; reflexivity|exact I]|]. repeat split; vm_compute; reflexivity.
+Qed.
